@@ -193,7 +193,8 @@ func cmdDriveRequest(args []string) error {
 		}
 		pslRules = keep
 	}
-	tails := []string{"", "/", "/path/x.js", "?q=1", "?email=john@mail.example.net", "/p?u=a@b.example", "?a=b/c@d", "/p?q=1#frag", "/a:b/c", "/p?u=http://other.example/x", ":8080/x", ":443", "/P/Q.JS"}
+	tails := []string{"", "/", "/path/x.js", "?q=1", "?email=john@mail.example.net", "/p?u=a@b.example", "?a=b/c@d", "/p?q=1#frag", "/a:b/c", "/p?u=http://other.example/x", ":8080/x", ":443", "/P/Q.JS",
+		"/\u043a\u0430\u0442\u0430\u043b\u043e\u0433/\u0401\u043b\u043a\u0430", "/?q=\u00c9COLE&\u00d7=\u00de", "/\u0416\u0423\u041a/x"}
 	schemes := []string{"http", "https", "ws", "wss"}
 	third, panics := 0, 0
 	var samples []string
